@@ -11,6 +11,7 @@ import ast
 
 from .. import anchors as A
 from ..model import AnalysisError, Project, call_name, kwarg, local_values, walk_local
+from ..paths import run_paths
 from ..report import Report
 from . import _stdio
 
@@ -18,6 +19,82 @@ VALUE_CHANGING_STDLIB_KW = {"parse_float", "parse_int", "parse_constant", "objec
 FRAME_BREAKING_ORJSON = {"OPT_APPEND_NEWLINE"}
 NEEDS_FALLBACK_ARM = {"OPT_STRICT_INTEGER": "ints above 2^53 are rejected by orjson under this option; only the stdlib fallback arm keeps them encodable"}
 HARMLESS_ORJSON = {"OPT_SORT_KEYS", "OPT_NON_STR_KEYS", "OPT_SERIALIZE_NUMPY", "OPT_UTC_Z", "OPT_NAIVE_UTC", "OPT_OMIT_MICROSECONDS", "OPT_PASSTHROUGH_DATACLASS", "OPT_PASSTHROUGH_DATETIME", "OPT_PASSTHROUGH_SUBCLASS", "OPT_SERIALIZE_DATACLASS", "OPT_SERIALIZE_UUID"}
+
+
+_R4_PROBE = """
+def dumps_bytes(obj, *, newline=False, **kwargs):
+    if HAS_ORJSON:
+        try:
+            options = 0
+            if newline:
+                options |= _orjson.OPT_APPEND_NEWLINE
+            return _orjson.dumps(obj, option=options)
+        except Exception:
+            return _stdlib_json.dumps(obj, **kwargs).encode("utf-8")
+    else:
+        data = _stdlib_json.dumps(obj, **kwargs).encode("utf-8")
+        return data + b"\\n" if newline else data
+"""
+
+
+def arms_agree(fn_node, lib_call_name, rel):
+    """[(flag valuation, agree?, detail, outcomes)] — per valuation of the function's flag parameters, whether every
+    returning arm (fast backend, its fall-back on refusal, stdlib) ends the encoding the same way."""
+    flags = [a.arg for a in fn_node.args.kwonlyargs + fn_node.args.args[1:]]
+    lvg = local_values(fn_node)
+
+    def sev(stmt, st, an):
+        if isinstance(stmt, (ast.AugAssign, ast.Assign)) and any(isinstance(n_, ast.Attribute) and n_.attr in FRAME_BREAKING_ORJSON for n_ in ast.walk(stmt.value)):
+            return "terminator-option"
+        return None
+
+    def strip(e):
+        while isinstance(e, ast.Call) and isinstance(e.func, ast.Attribute) and e.func.attr in ("encode", "decode"):
+            e = e.func.value
+        return e
+
+    def once(e, st=None, an=None):
+        """a local stands for the definition that reaches this return"""
+        if isinstance(e, ast.Name) and st is not None:
+            d = an.defs.get(st.term(e.id) or "", ("", None))[1]
+            if d is not None:
+                return d.value if isinstance(d, ast.Await) else d
+        if isinstance(e, ast.Name) and len(lvg.get(e.id) or []) == 1 and lvg[e.id][0] is not None:
+            return lvg[e.id][0]
+        return e
+
+    if rel == "<probe>":
+        # project sources are normalised when parsed; the embedded example gets the same treatment here
+        from ..normalize import normalize
+
+        m_ = ast.Module(body=[fn_node], type_ignores=[])
+        normalize(m_)
+        ast.fix_missing_locations(m_)
+        fn_node = m_.body[0]
+        lvg = local_values(fn_node)
+    ga, go = run_paths(fn_node, stmt_event_of=sev, fallible=True, exc_after_events=True)
+    seen = {}
+    for st, node in go.ret:
+        v = once(node.value, st, ga)
+        added = isinstance(v, ast.BinOp) and isinstance(v.op, ast.Add) and isinstance(v.right, ast.Constant) and v.right.value in ("\n", b"\n")
+        core = strip(once(strip(v.left if added else v), st, ga))
+        if not (isinstance(core, ast.Call) and lib_call_name(core).endswith(".dumps")):
+            raise AnalysisError(f"{rel}:{node.lineno}: {fn_node.name} returns `{ast.unparse(node.value)[:60]}`, not the result of a backend's dumps")
+        fast = "orjson" in lib_call_name(core)
+        via_opt = fast and "terminator-option" in st.events and any(k.arg == "option" for k in core.keywords)
+        inline_opt = fast and any(isinstance(n_, ast.Attribute) and n_.attr in FRAME_BREAKING_ORJSON for k in core.keywords for n_ in ast.walk(k.value))
+        terminated = bool(added or via_opt or inline_opt)
+        val = tuple(sorted((q, q in st.lits) for q in flags if q in st.lits or f"not {q}" in st.lits))
+        seen.setdefault(val, {}).setdefault(terminated, (node, "fast backend" if fast else "stdlib"))
+    out = []
+    for val, outcomes in sorted(seen.items()):
+        ok = len(outcomes) == 1
+        det = ""
+        if not ok:
+            (n1, b1), (n0, b0) = outcomes[True], outcomes[False]
+            det = f"with {dict(val)} the {b1} arm at line {n1.lineno} ends the encoding with a line feed and the {b0} arm at line {n0.lineno} does not: whether a message is a complete frame depends on which backend encoded it"
+        out.append((val, ok, det, outcomes))
+    return out
 
 
 def check(P: Project, R: Report) -> None:
@@ -134,6 +211,27 @@ def check(P: Project, R: Report) -> None:
                 R.ob("R2", f"{fname}: orjson option {name} is known", False, where, "an option this rule has no classification for")
         if not opts:
             R.ob("R2", f"{fname}: no orjson options", True, f.where, "")
+    # ------------------------------------------------------------------ R4: further serialisers with a backend split
+    R.rule("R4", "every other serialiser of the module that has an arm per backend (including the fall-back arm taken when the fast backend refuses a value) ends its result the same way on all arms for the same arguments: a line terminator appended on one arm is appended on all")
+    siblings = []
+    for g in P.funcs_in(A.MOD_FASTJSON):
+        if g.name in ("dumps", "loads") or g.parent is not None:
+            continue
+        libs = {lib_call_name(c_).rsplit(".", 1)[0] for c_ in walk_local(g.node) if isinstance(c_, ast.Call) and lib_call_name(c_).endswith(".dumps")}
+        if len(libs) >= 2:
+            siblings.append(g)
+    for g in siblings:
+        R.fn(g.fq)
+        for val, ok, det, outcomes in arms_agree(g.node, lib_call_name, mod.rel):
+            R.ob("R4", f"{g.name}: all arms end the encoding alike for {dict(val) or 'every call'}", ok, f"{mod.rel}:{g.node.lineno}", det, sample=f"R4 {g.name} {dict(val)}: terminator {sorted(outcomes)}")
+    # the rule's own positive example, decided on every run (the shipped module has no such serialiser to-day)
+    probe = ast.parse(_R4_PROBE).body[0]
+    fired = [v for v, ok, _d, _o in arms_agree(probe, call_name, "<probe>") if not ok]
+    R.ob("R4", f"terminator agreement decided for {len(siblings)} further serialiser(s); the rule's built-in counter-example is recognised", bool(fired), mod.rel, "the rule no longer recognises its own counter-example",
+         sample=f"R4 further backend-split serialisers: {[g.name for g in siblings] or 'none'}; probe disagreement found for {fired[:1]}")
+    R.extra["other_backend_split_serialisers"] = [g.name for g in siblings]
+    sib_names = {g.name for g in siblings}
+
     # ------------------------------------------------------------------ R3
     wr, loop = _stdio.writer(P)
     R.fn(wr.fq)
@@ -142,7 +240,7 @@ def check(P: Project, R: Report) -> None:
     n = 0
     for f in writers:
         for c in walk_local(f.node):
-            if isinstance(c, ast.Call) and (call_name(c) in ("json.dumps", "fast_json.dumps") or call_name(c).endswith("model_dump_json") or "model_dump_json" in call_name(c)):
+            if isinstance(c, ast.Call) and (call_name(c) in ("json.dumps", "fast_json.dumps") or call_name(c) in {f"{p_}.{x}" for p_ in ("json", "fast_json") for x in sib_names} or call_name(c).endswith("model_dump_json") or "model_dump_json" in call_name(c)):
                 n += 1
                 R.call_sites += 1
                 bad = [k.arg for k in c.keywords if k.arg in ("indent", "option")]
